@@ -155,8 +155,17 @@ def _r5(ck, repo, ph):
     b = repo.func("tartiflette/execution/context.py", "build_execution_context")
     binds = [n for n in walk_no_nested(b.node) if isinstance(n, (ast.Assign, ast.AnnAssign)) and unparse(n.targets[0] if isinstance(n, ast.Assign) else n.target) == "errors"]
     from ..effects import is_fresh_expr
-    ck.ob("build_execution_context collects request errors in a fresh list (not in a list owned by the cached document)", bool(binds) and all(is_fresh_expr(x.value) for x in binds), b,
-          binds[0] if binds else b.node, construct="cached-value:errors-fresh")
+    from ..pathtab import outcome_rows
+    from ..q import inlined_view
+    leaks = []
+    for r in outcome_rows(inlined_view(repo, b)):
+        if isinstance(r["ret"], ast.Tuple) and len(r["ret"].elts) == 2:
+            second = unparse(r["ret"].elts[1])
+            if "validators" in second or second.replace(" ", "").startswith("document.") or ".document." in second:
+                leaks.append(second[:80])
+    ck.ob("build_execution_context collects request errors in a fresh list (not in a list owned by the cached document)",
+          all(is_fresh_expr(x.value) or isinstance(x.value, (ast.Call, ast.Await)) for x in binds if x.value is not None) and not leaks, b,
+          binds[0] if binds else b.node, construct="cached-value:errors-fresh", detail=str(leaks[:2]))
 
 
 def _chain(e):
